@@ -10,6 +10,8 @@ import (
 	"strconv"
 	"strings"
 
+	esquery "github.com/siglens/siglens/pkg/es/query"
+	"github.com/siglens/siglens/pkg/segment/query"
 	"github.com/siglens/siglens/pkg/segment/query/metadata"
 	"github.com/siglens/siglens/pkg/segment/query/metadata/metautils"
 	"github.com/siglens/siglens/pkg/segment/structs"
@@ -19,7 +21,7 @@ import (
 	"verifharness/vhlib"
 )
 
-const casesImports = "From Coq Require Import QArith.\nFrom SigM Require Import Base Prune Layout PruneCheck.\n"
+const casesImports = "From Coq Require Import QArith.\nFrom SigM Require Import Base Prune Layout TextPlan PruneCheck.\n"
 
 func cz(z int64) string { return "(" + strconv.FormatInt(z, 10) + ")%Z" }
 func czu(z uint64) string {
@@ -431,6 +433,175 @@ func directCases(cfg vhlib.Config, sum *vhlib.Summary, rng *vhlib.Rng) {
 		sum.Count(fmt.Sprintf("direct/prune_text/and=%v/neg=%v/wildcol=%v", and, negate, wildCol))
 	}
 	shard(sum, cfg.Out, "cases_prune_text", "check_prune_text", items, 300)
+
+	// ---- 7. the bloom check as a planner: the candidate columns it records for a query on the wildcard column.
+	// Blocks with SEVERAL text columns (and a numeric one); the leaf query is the one the real ES front-end builds
+	// ({"term":{"*":v}} / query_string "*:v": equality on `*` with a string, SimpleExpressionAllColumns, searched in the
+	// recorded columns only; {"match":{"*":...}}: words, And / one word Or); every parameter of the check is derived
+	// from that query as the callers do (hooks).  Rotated: doCmiChecks; open: DoCMICheckForUnrotated.
+	items = nil
+	textCols := []string{"src", "dst", "msg", "tag"}
+	cellPool := []string{"alpha", "beta", "Alpha", "say alpha now", "x y z", "gamma", "Alpha beta", "left-1", "right-2", "omega"}
+	eqPool := []string{"alpha", "beta", "Alpha", "gamma", "zzz", "say alpha now", "x y z", "omega", "left-1"}
+	wordPool2 := []string{"alpha", "beta", "gamma", "say", "now", "zzz", "omega"}
+	for c := 0; c < nprune; c++ {
+		nb := rng.Range(1, 3)
+		blocks := make([]map[string]writer.VerifC03Cmi, nb)
+		bcoq := make([]string, nb)
+		btxt := make([]string, nb) // the same blocks, readable
+		var kind, body string
+		var eqv string
+		switch rng.Intn(4) {
+		case 0, 1:
+			kind, eqv = "term", vhlib.Pick(rng, eqPool)
+			body = fmt.Sprintf(`{"query":{"bool":{"must":[{"term":{"*":%q}}]}}}`, eqv)
+		case 2:
+			kind, eqv = "query_string", vhlib.Pick(rng, []string{"alpha", "beta", "Alpha", "gamma", "zzz", "omega"})
+			body = fmt.Sprintf(`{"query":{"bool":{"must":[{"query_string":{"query":"*:%s"}}]}}}`, eqv)
+		default:
+			kind = "match_and"
+			w1, w2 := vhlib.Pick(rng, wordPool2), vhlib.Pick(rng, wordPool2)
+			if rng.Chance(30) || w1 == w2 {
+				kind = "match_one"
+				body = fmt.Sprintf(`{"query":{"bool":{"must":[{"match":{"*":{"query":%q,"operator":"or"}}}]}}}`, w1)
+			} else {
+				body = fmt.Sprintf(`{"query":{"bool":{"must":[{"match":{"*":{"query":%q,"operator":"and"}}}]}}}`, w1+" "+w2)
+			}
+		}
+		for b := 0; b < nb; b++ {
+			blocks[b] = map[string]writer.VerifC03Cmi{}
+			var cs []string
+			for _, col := range textCols {
+				if !rng.Chance(70) {
+					continue
+				}
+				n := rng.Range(1, 3)
+				var vals []string
+				for i := 0; i < n; i++ {
+					if eqv != "" && rng.Chance(30) {
+						vals = append(vals, eqv) // the value in several columns of one block
+					} else {
+						vals = append(vals, vhlib.Pick(rng, cellPool))
+					}
+				}
+				blocks[b][col] = writer.VerifC03Cmi{Kind: 1, Words: vals}
+				vs := make([]string, len(vals))
+				for i, v := range vals {
+					vs[i] = cbytes(v)
+				}
+				cs = append(cs, fmt.Sprintf("(%s, Some %s)", cbytes(col), vhlib.CoqList(vs)))
+				btxt[b] += fmt.Sprintf(" %s:%q", col, vals)
+			}
+			if rng.Chance(40) {
+				blocks[b]["num"] = writer.VerifC03Cmi{Kind: 2, Range: &structs.Numbers{NumType: sutils.RNT_SIGNED_INT, Min_int64: 1, Max_int64: 9}}
+				cs = append(cs, fmt.Sprintf("(%s, @None (list (list N)))", cbytes("num")))
+				btxt[b] += " num:[1..9]"
+			}
+			btxt[b] = "{" + strings.TrimSpace(btxt[b]) + "}"
+			if len(cs) == 0 {
+				bcoq[b] = "(@nil (list N * option (list (list N))))"
+			} else {
+				bcoq[b] = vhlib.CoqList(cs)
+			}
+		}
+		node, _, _, _, perr := esquery.ParseRequest([]byte(body), 1, false)
+		var leaf *structs.SearchQuery
+		if perr == nil && node != nil {
+			if sn := query.ConvertASTNodeToSearchNode(node, 1); sn != nil && sn.AndSearchConditions != nil && len(sn.AndSearchConditions.SearchQueries) == 1 {
+				leaf = sn.AndSearchConditions.SearchQueries[0]
+			}
+		}
+		if leaf == nil {
+			sum.HarnessError(fmt.Sprintf("candidate columns: the ES front-end gave no single leaf query for %s (%v)", body, perr))
+			continue
+		}
+		if _, wild := leaf.GetAllColumnsInQuery(); !wild || ((kind == "term" || kind == "query_string") && leaf.SearchType != structs.SimpleExpressionAllColumns) {
+			sum.HarnessError(fmt.Sprintf("candidate columns: %s is not a wildcard-column query of the expected type (SearchType %v)", body, leaf.SearchType))
+			continue
+		}
+		keys, orig, wildVal, bop := leaf.GetAllBlockBloomKeysToSearch()
+		if wildVal || leaf.IsNegated() {
+			sum.HarnessError(fmt.Sprintf("candidate columns: %s bypasses the bloom check", body))
+			continue
+		}
+		var kl []string
+		for k := range keys {
+			kl = append(kl, k)
+		}
+		sortStrings(kl)
+		kcoq := make([]string, len(kl))
+		for i, k := range kl {
+			if o, ok := orig[k]; ok {
+				kcoq[i] = fmt.Sprintf("(%s, Some %s)", cbytes(k), cbytes(o))
+			} else {
+				kcoq[i] = fmt.Sprintf("(%s, @None (list N))", cbytes(k))
+			}
+		}
+		rot := metadata.VerifC03DoCmiChecksCols(writer.VerifC03Containers(blocks), leaf)
+		unrot := writer.VerifC03UnrotatedTextCols(blocks, leaf)
+		plan := func(m map[uint16][]string) string {
+			xs := make([]string, nb)
+			for b := 0; b < nb; b++ {
+				cols, ok := m[uint16(b)]
+				switch {
+				case !ok:
+					xs[b] = "(@None (list (list N)))"
+				case len(cols) == 0:
+					xs[b] = "(Some (@nil (list N)))"
+				default:
+					sortStrings(cols)
+					cc := make([]string, len(cols))
+					for i, c := range cols {
+						cc[i] = cbytes(c)
+					}
+					xs[b] = "(Some " + vhlib.CoqList(cc) + ")"
+				}
+			}
+			return vhlib.CoqList(xs)
+		}
+		// the property on the real functions: a column of the block holding the value must be handed to the search
+		if eqv != "" {
+			for b := 0; b < nb; b++ {
+				for col, cmi := range blocks[b] {
+					holds := false
+					for _, w := range cmi.Words {
+						holds = holds || (cmi.Kind == 1 && w == eqv)
+					}
+					if !holds {
+						continue
+					}
+					for _, side := range []struct {
+						name string
+						m    map[uint16][]string
+					}{{"doCmiChecks (rotated segment)", rot}, {"DoCMICheckForUnrotated (open segment)", unrot}} {
+						cols, kept := side.m[uint16(b)]
+						has := false
+						for _, x := range cols {
+							has = has || x == col
+						}
+						if !kept {
+							sum.Fail("bloom_prunes_match", fmt.Sprintf("%s, query %s: block %d %s (values per text column) holds the value %q in column %s and is dropped", side.name, body, b, btxt[b], eqv, col), map[string]interface{}{"blocks": btxt, "query": body, "check": side.name})
+						} else if !has {
+							sortStrings(cols)
+							sum.Fail("allcolumn_equality_candidate_column_dropped", fmt.Sprintf("%s, query %s (equality on the wildcard column, searched only in the columns the bloom check records): recorded candidate columns %v, but block %d %s (values per text column) holds the value %q in column %s", side.name, body, cols, b, btxt[b], eqv, col), map[string]interface{}{"blocks": btxt, "query": body, "check": side.name, "block": b, "column": col, "recorded": cols})
+						}
+					}
+				}
+			}
+		}
+		lopc := "LOr"
+		if bop == sutils.And {
+			lopc = "LAnd"
+		}
+		kcl := "(@nil (list N * option (list N)))"
+		if len(kcoq) > 0 {
+			kcl = vhlib.CoqList(kcoq)
+		}
+		items = append(items, fmt.Sprintf("(%s, %s, %s, %s, %s)", vhlib.CoqList(bcoq), kcl, lopc, plan(rot), plan(unrot)))
+		sum.Eval(fmt.Sprintf("allcol_cols/%v/%s", bcoq, body), true)
+		sum.Count("direct/allcol_candidate_columns/" + kind)
+	}
+	shard(sum, cfg.Out, "cases_allcol_cols", "check_allcol_cols", items, 300)
 }
 
 func survivors(m map[uint16]bool, n int) string {
